@@ -14,7 +14,8 @@ LEVEL = "exploration"
 RULE = ("Hypothesis draws d in {2,3,50,300,1000(,3000)} or 2..40, cycled mode-size patterns (1..3) and rank patterns (1..3, a tenth "
         "over-ranked), a bulk family (+-U(.25,1), U(-1,1), positive, identity+noise as in rand_stab), the data seed, and a per-core "
         "power-of-two scale vector given by (pattern in uniform / left end / right end / alternating / two halves / single core, target total "
-        "in [-30000, 30000], amplitude); second operands are independent, identical, perturbed in one core, support-disjoint, or "
+        "in [-30000, 30000], amplitude); second operands are independent (own scale profile around the same or another total, "
+        "or the same profile plus a gap), identical, perturbed in one core, support-disjoint, or "
         "scaled oppositely (entries up to 2^+-1000 with a representable product per core). Oracle = harness.oracle.gram_ref "
         "(frexp-renormalised Gram recursion with unbounded integer exponent) with a conditioning-aware first-order rounding bound "
         "obtained from a left and a right sweep of the same recursion on |cores|; metamorphic power-of-two rescaling of one core. "
@@ -22,8 +23,8 @@ RULE = ("Hypothesis draws d in {2,3,50,300,1000(,3000)} or 2..40, cycled mode-si
         "distinct by SHA-1 of the case.")
 TOLERANCES = ("scalar product: |v 2^p / ref - 1| <= 8 eps sum_k (r1 s1 + n + 2) rho_k, rho_k = ||T_k^abs |v_k|||_2 ||W_k+1||_2 / |<Y1,Y2>| "
               "(majorant of the k-th step times the norm of the right partial Gram matrix: the exact first-order propagation of one rounding "
-              "error to the result), asserted when that bound is <= 1e-3; norm: half of it; accuracy: half the sum of the bounds of both Gram "
-              "values, saturation decided on the reference half-exponent with the +-0.5 window implied by mantissas in [1, sqrt 2); "
+              "error to the result), asserted when that bound is <= 1e-3; norm: half of it; accuracy: reference <Y1,Y1> - 2<Y1,Y2> + <Y2,Y2> with exact "
+              "exponent alignment, half of (sum of the three absolute bounds / value + bound of <Y2,Y2>), saturation decided on the reference half-exponent with the +-0.5 window implied by mantissas in [1, sqrt 2); "
               "orthogonalize: orthonormality defect <= 64 eps r n, 2(log2||Z_k|| + p) against the Gram reference with the same bound, "
               "||Z 2^p - Y||^2/||Y||^2 (three reference Gram values) <= its own rounding bound; truncate: that distance^2 <= "
               "(e(1+1e-3))^2 + 16 (d-1) R eps (eigh floor, in quadrature) + rounding bound; mantissa in [1-4eps, 2) because "
@@ -34,10 +35,6 @@ ASSUMPTIONS = ["d >= 2",
                "the whole quantity comes from the product over many cores; the `opposed` operands of mul_scalar have entries up to 2^+-900 "
                "with pair sums in the same window",
                "bulk values of modulus < 2^-20 are replaced by 2^-20 in the U(-1,1) family (no subnormal products at the edge of the window)",
-               "accuracy: Y1 and Y2 share the scale vector up to a monotone cumulative gap; when the partial norms of the two blocks of "
-               "Y1 - Y2 swing past each other by hundreds of binary orders (independent bulk families drift apart in large d) the smaller "
-               "block is below the rounding level of the Gram state and the value is not asserted (rounding bound > 1e-3, label "
-               "cancellation_dominated) - this is inherent to representing Y1 - Y2 with block cores, not to the exponent bookkeeping",
                "Y2 of accuracy is not the zero tensor (the documented return for it is the undecided -1 # TODO)"]
 
 LO, HI = -480, 480            # per-core log2 scale window
@@ -325,8 +322,10 @@ def accuracy_cases(draw, tier, tiny=False):
     # gap < 0: Y2 smaller than Y1 by 2^gap (distance / ||Y2|| ~ 2^-gap, saturation beyond 500); gap > 0: Y2 dominates (distance ~ 1)
     gap = draw(st.one_of(st.just(0), st.integers(-620, 620), st.integers(-40, 40), st.integers(-620, -470),
                          st.sampled_from([-497, -498, -499, -500, -501, -502, -503])))
-    return {"Y1": Y1, "Y2": Y2, "rel": draw(st.sampled_from(["indep"] * 4 + ["perturbed"] * 4 + ["same"])),
+    dtotal = draw(st.one_of(st.just(0), st.integers(-40, 40), st.integers(-620, 620), st.integers(-30000, 30000)))
+    return {"Y1": Y1, "Y2": Y2, "rel": draw(st.sampled_from(["indep"] * 5 + ["perturbed"] * 3 + ["same"])),
             "q": draw(st.integers(0, 45)), "gap": gap, "gj": draw(st.integers(0, 10 ** 6)),
+            "own_scales": draw(st.sampled_from([True, True, False])), "sc2": draw(scale_specs(tiny)), "dtotal": dtotal,
             "sc": draw(scale_specs(tiny)), "shift": draw(shifts()), "tiny": tiny}
 
 
@@ -526,9 +525,14 @@ def accuracy_pair(case):
     lo, hi = win(case)
     d = case["Y1"]["d"]
     s1 = scales(d, case["sc"], lo, hi)
-    s2 = np.clip(s1 + gap_path(d, case["gj"] % d, case["gap"]), lo, hi)      # clipping keeps the gap path monotone
-    Y1 = build(case["Y1"], s1)
     rel = case["rel"]
+    if rel == "indep" and case["own_scales"]:
+        sc2 = dict(case["sc2"])
+        sc2["total"] = case["sc"]["total"] + case["dtotal"]          # an own profile (other end, other pattern) around the same total
+        s2 = scales(d, sc2, lo, hi)
+    else:
+        s2 = np.clip(s1 + gap_path(d, case["gj"] % d, case["gap"]), lo, hi)
+    Y1 = build(case["Y1"], s1)
     if rel == "indep":
         Y2 = build(case["Y2"], s2)
     else:
@@ -543,12 +547,23 @@ def accuracy_pair(case):
 def prop_accuracy(case, ctx):
     Y1, Y2, s1, s2 = accuracy_pair(case)
     d = len(Y1)
-    D = block_diff(Y1, Y2)
-    A, B = Gram(D, D), Gram(Y2, Y2)
-    (av, ap), (bv, bp) = gram_ref(D, D), gram_ref(Y2, Y2)
     what = "accuracy"
     g = Guard(ctx, what)
-    ctx.label(f"d={d}" if d in (2, 3, 50, 300, 1000, 3000) else "d=other", "rel:" + case["rel"], "pat:" + case["sc"]["pat"])
+    own = case["rel"] == "indep" and case["own_scales"]
+    ctx.label(f"d={d}" if d in (2, 3, 50, 300, 1000, 3000) else "d=other", "rel:" + case["rel"], "pat:" + case["sc"]["pat"],
+              "scales:own" if own else "scales:shared+gap")
+    if own and case["sc"]["pat"] != case["sc2"]["pat"]:
+        ctx.label("different_profiles")
+    # reference: ||Y1 - Y2||^2 = <Y1,Y1> - 2 <Y1,Y2> + <Y2,Y2>, every term with its own unbounded exponent and rounding bound
+    grams = [Gram(Y1, Y1), Gram(Y1, Y2), Gram(Y2, Y2)]
+    refs = [gram_ref(Y1, Y1), gram_ref(Y1, Y2), gram_ref(Y2, Y2)]
+    ctx.check(not grams[2].zero and refs[2][0] > 0, "harness: Y2 must not be the zero tensor")
+    cm, cp = refs[2]
+    E = max(rp for (rv, rp) in refs if rv != 0)
+    terms = [co * pow2(rv, rp - E) for co, (rv, rp) in zip((1.0, -2.0, 1.0), refs)]
+    S = terms[0] + terms[1] + terms[2]                                # ||Y1 - Y2||^2 / 2^E
+    T = sum(abs(t) * (0.0 if gr.zero else gr.tol) for t, gr in zip(terms, grams)) + 4 * EPS * sum(abs(t) for t in terms)
+    tc = grams[2].tol
     snap = snapshot(Y1), snapshot(Y2)
     acc = g.lib(teneva.accuracy, Y1, Y2)
     unchanged(ctx, Y1, snap[0], what)
@@ -556,20 +571,14 @@ def prop_accuracy(case, ctx):
     g.check(isinstance(acc, (float, np.floating)) and not isinstance(acc, bool), "result is not a float", got=repr(acc))
     acc = float(acc)
     g.check(math.isfinite(acc) and acc >= 0, "result is not a finite non-negative number", got=acc)
-    ctx.check(not B.zero and bv > 0, "harness: Y2 must not be the zero tensor")
-    n1, n2 = ctx.lib(teneva.norm, D), ctx.lib(teneva.norm, Y2)
-    nt = not (normal_finite(float(n2)) and n2 > 0) or (not A.zero and not (normal_finite(float(n1)) and n1 > 0))
-    ctx.nontrivial(nt)
-    if A.zero or av == 0:
-        # the reference recursion cancelled exactly; the library sums in another order, so only a coarse bound is guaranteed
-        if B.tol <= 1e-9:
-            g.check(acc <= 1e-4, "Y1 - Y2 cancels exactly in the reference but the distance is not small", got=acc)
-        ctx.label("exact_zero")
-        return
-    tol = 0.5 * (A.tol + B.tol) * 1.5 + 16 * EPS
-    if A.tol <= 0.25 and B.tol <= 0.25 and av > 0:
-        Lh = 0.5 * ((ap - bp) + math.log2(av / bv))                 # log2(||Y1-Y2|| / ||Y2||), reference
+    n1, n2 = float(ctx.lib(teneva.norm, block_diff(Y1, Y2))), float(ctx.lib(teneva.norm, Y2))
+    ctx.nontrivial(not (normal_finite(n2) and n2 > 0) or not (normal_finite(n1) and n1 > 0))
+    reliable = math.isfinite(T) and S > 0 and T <= 0.25 * S and tc <= 0.25
+    if reliable:
+        tol = 0.5 * (T / S + tc) * 1.5 + 16 * EPS
+        Lh = 0.5 * ((E - cp) + math.log2(S / cm))                     # log2(||Y1-Y2|| / ||Y2||), reference
         slack = 1e-6 + tol
+        # the library saturates on the difference of the half-exponents; its mantissas lie in [1, sqrt 2) there, hence the +-0.5 window
         if Lh >= 500.5 + slack:
             g.check(acc == 1e299, "exponent gap above 500: the saturation value 1e299 is expected", got=acc, log2_ref=Lh)
             ctx.label("saturated_high")
@@ -581,34 +590,35 @@ def prop_accuracy(case, ctx):
         if Lh > 500 - slack and acc == 1e299:
             ctx.label("saturation_window")
             return
-        if Lh < -500 + slack and acc == 0.0:
-            ctx.label("saturation_window")
-            return
         if tol <= GATE:
             g.check(acc > 0, "distance is 0 although the reference distance is not", got=acc, log2_ref=Lh)
             m, e = math.frexp(acc)
-            ratio2 = pow2(m * m * bv / av, 2 * e - (ap - bp))                       # (acc / reference)^2, exponents as integers
+            ratio2 = pow2(m * m * cm / S, 2 * e - (E - cp))               # (acc / reference)^2, exponents as integers
             g.check(abs(ratio2 - 1) <= 3 * tol, "differs from the reference relative distance", got=acc, log2_got=math.log2(m) + e, log2_ref=Lh,
                     ratio2=ratio2, tol=3 * tol)
             ctx.label("value_asserted", "gap>100" if abs(Lh) > 100 else "gap<=100")
     else:
         ctx.label("cancellation_dominated")
-    # always: an upper bound from the absolute rounding bound of ||Y1-Y2||^2 (catches a wrong sign / dropped block under cancellation)
-    if B.tol <= 0.25 and math.isfinite(A.tol):
-        Lup = 0.5 * ((ap - bp) + math.log2(abs(av) * (1 + 2 * A.tol) / (bv * (1 - 2 * B.tol))))
-        if -1000 < Lup < 1000 and acc != 1e299:
-            g.check(acc <= 2.0 ** Lup * (1 + 1e-9), "distance larger than the reference plus its rounding bound", got=acc, bound=2.0 ** Lup)
-            ctx.label("upper_bound_asserted")
-    # rescaling the same core of both tensors by 2^s leaves the relative distance bit-identical
+    # always: an upper bound from the absolute rounding bound of ||Y1-Y2||^2 (catches a wrong sign / dropped term under cancellation)
+    if tc <= 0.25 and math.isfinite(T):
+        up = (max(S, 0.0) + 2 * T) / (cm * (1 - 2 * tc))
+        if up > 0:
+            Lup = 0.5 * ((E - cp) + math.log2(up))
+            if -1000 < Lup < 1000 and acc != 1e299:
+                g.check(acc <= 2.0 ** Lup * (1 + 1e-9), "distance larger than the reference plus its rounding bound", got=acc, bound=2.0 ** Lup)
+                ctx.label("upper_bound_asserted")
+                if S <= T:
+                    ctx.label("distance_at_rounding_level")
+    # rescaling the same core of both tensors by 2^s leaves the relative distance bit-identical: every Gram term keeps its mantissa
+    # (exact when step j has no subnormal terms and no flushed term is amplified later, i.e. moderate rounding bounds)
     j = case["shift"]["jf"] % d
     lo, hi = win(case)
     a, b = int(min(s1[j], s2[j])), int(max(s1[j], s2[j]))
     sh = max(EXACT_LO // 2 - a, min(hi - b, case["shift"]["s"])) if EXACT_LO // 2 - a <= hi - b else 0
-    # exact only if no block of the Gram state of Y1 - Y2 is flushed at step j and later amplified (bounded by the rounding bound A.tol)
-    if sh != 0 and 2 * a >= EXACT_LO and A.tol <= GATE and B.tol <= GATE:
+    if sh != 0 and 2 * a >= EXACT_LO and all((not gr.zero) and gr.tol <= 1.0 for gr in grams):
         acc2 = float(ctx.lib(teneva.accuracy, rescale(Y1, j, sh), rescale(Y2, j, sh)))
         if acc2 != acc:
-            # floor(log2) within an ulp of a power of two may move one factor of 2 between mantissa and exponent
+            # floor(log2) within an ulp of a power of two may move one factor of 2 between a mantissa and its exponent
             ctx.check(abs(acc2 - acc) <= 8 * EPS * acc, "accuracy: rescaling the same core of both tensors by 2^s changed the result", s=sh, j=j, before=acc, after=acc2)
             ctx.label("rescale_not_bitwise")
         ctx.label("rescaled")
